@@ -57,6 +57,9 @@ func fatAllScens(oracle string, quick bool, depth int) []*fatScen {
 		out = append(out, fatBigChainScenario(c, oracle, hd))
 	}
 	out = append(out, fatRootFullScenario(fatCfg{Type: 12, Size: 64 << 10}, oracle, depth+1))
+	for _, c := range []fatCfg{{Type: 12, Size: 64 << 10, Start: 512}, {Type: 32, Size: 64<<10 + 300, Start: 0}} {
+		out = append(out, fatDirFullScenario(c, oracle, hd))
+	}
 	return out
 }
 
